@@ -997,8 +997,21 @@ def install_split_probe():
                  for ps, ss in zip(possible_parsed_splits, possible_substrings_splits)]
         _events().append({"ev": "best", "cands": cands, "chosen": chosen})
         return r
+    o_rb = X.set_relative_base
+
+    def set_relative_base(substring, already_parsed):
+        r = o_rb(substring, already_parsed)
+        chosen = 0 if r[1] is None else next((i + 1 for i in range(len(already_parsed) - 1, -1, -1) if already_parsed[i][0]["date_obj"] is r[1]), -1)
+        # (an absolute piece whose parse gave nothing hands on None: told apart from "no absolute piece" by the flags)
+        rel = [bool(x[1]) for x in already_parsed]
+        if r[1] is None and any(not f for f in rel):
+            last = max(i for i, f in enumerate(rel) if not f)
+            chosen = last + 1 if already_parsed[last][0]["date_obj"] is None else -1
+        _events().append({"ev": "relbase", "rel": rel, "chosen": chosen})
+        return r
     X.split_by = split_by
     X.choose_best_split = choose_best_split
+    X.set_relative_base = staticmethod(set_relative_base)
 
 
 def project_splitby(e):
@@ -1067,9 +1080,11 @@ def call_search(case):
         return res
     if probe_chunks:
         res["splits"] = []
-        for e_ in [x for x in _state.events if x.get("ev") in ("splitby", "best")][:12]:
+        for e_ in [x for x in _state.events if x.get("ev") in ("splitby", "best")][:12] + [x for x in _state.events if x.get("ev") == "relbase" and x["rel"]][:4]:
             try:
-                res["splits"].append(dict(project_splitby(e_), kind="splitby") if e_["ev"] == "splitby" else {"kind": "best", "cands": e_["cands"], "chosen": e_["chosen"]})
+                res["splits"].append(dict(project_splitby(e_), kind="splitby") if e_["ev"] == "splitby" else
+                                     {"kind": "best", "cands": e_["cands"], "chosen": e_["chosen"]} if e_["ev"] == "best" else
+                                     {"kind": "relbase", "rel": e_["rel"], "chosen": e_["chosen"]})
             except Exception as x:  # noqa
                 res["splits_error"] = "%s: %s" % (type(x).__name__, x)
         res["chunks"] = []
